@@ -64,7 +64,8 @@ MIN_EVENTS = {
                  'crash_points_delete_all': 4000, 'crash_states_inspected': 30000,
                  'strace_runs': 12, 'strace_renames_onto_final': 12},
 }
-CASE_TIMEOUT = 600
+CASE_TIMEOUT = 3600          # a loaded machine stretches fork latency a hundredfold; expiry = inconclusive
+SHARD_TIMEOUT = {'quick': 1800, 'thorough': 14400}
 EXHAUSTIVE_NOTE = ('crash: for every configuration and every mode (line, write, write-half, fs) the crash '
                    'index n runs 1,2,.. until the operation finishes without the failpoint firing, so every '
                    'LINE event of the JsonKeyStore/KeyStore code objects, every write() on a file in the '
@@ -1011,7 +1012,7 @@ async def crash_case(case, r):
     try:
         spec_path = write_spec(base, cfg, bc, case.get('modes', MODES))
         try:
-            p = run_helper('enumerate', spec_path, timeout=case.get('helper_timeout', 400))
+            p = run_helper('enumerate', spec_path, timeout=case.get('helper_timeout', 3000))
         except subprocess.TimeoutExpired:
             raise RuntimeError(f'crash helper timed out for {label}')
         results_path = os.path.join(base, 'results.json')
@@ -1259,9 +1260,9 @@ async def strace_case(case, r):
 def plan(tier, seed):
     cases = []
     quick = tier == 'quick'
-    nh = 48 if quick else 480
+    nh = 48 if quick else 320
     for i in range(nh):
-        cases.append({'kind': 'history', 'seed': seed * 100003 + i, 'histories': 12 if quick else 30})
+        cases.append({'kind': 'history', 'seed': seed * 100003 + i, 'histories': 12 if quick else 25})
     total = len(roundtrip_combos())
     step = 126
     for lo in range(0, total, step):
@@ -1286,12 +1287,12 @@ def plan(tier, seed):
     else:
         for c in cfgs:
             modes = ['line', 'fs', 'write']
-            if c['store'] == 'named' and not c['stale_tmp']:
+            if c['store'] == 'named' and c['init'] == 'one':
                 modes.append('write-half')
             crash.append(({**c, 'size': 'tiny'}, modes))
         small = [('one', 'named', 'update-new'), ('one', 'default', 'update-merge'), ('multi', 'named', 'delete'),
                  ('multi-default', 'default', 'update-new'), ('multi-default', 'named', 'delete_all')]
-        big = [('multi', 'named', 'update-merge'), ('multi-default', 'default', 'delete')]
+        big = [('multi', 'named', 'update-merge')]
         for k, c in enumerate(cfgs):
             if c['stale_tmp']:
                 continue
